@@ -53,3 +53,22 @@ Theorem C05_relevance_source_is_the_model :
   src_is_relevant_translated = true /\ forall p c, src_is_relevant p c = is_relevant p c.
 Proof. split; [reflexivity | exact src_is_relevant_is_model]. Qed.
 Print Assumptions C05_relevance_source_is_the_model.
+
+(* ---- the path helpers of files/files.go, translated from the source on every run (Gen/PathFns.v) ---- *)
+From NfpmV Require Import Proofs.PathFnsProofs Gen.PathFns.
+
+(* ToNixPath, AsRelativePath, AsExplicitRelativePath, NormalizeAbsoluteFilePath and NormalizeAbsoluteDirPath as the
+   SOURCE composes them - over the model's filepath.Clean, with filepath.Join("/", e) = Clean("//" ++ e) and ToSlash the
+   identity - are, for every path, the functions of Model/Path.v that planning, member names, conffiles and backup
+   lines are stated over *)
+Theorem C05_path_helpers_source_is_the_model :
+  src_ToNixPath_translated && src_AsRelativePath_translated && src_AsExplicitRelativePath_translated
+  && src_NormalizeAbsoluteFilePath_translated && src_NormalizeAbsoluteDirPath_translated = true
+  /\ forall s, src_ToNixPath s = to_nix s /\ src_AsRelativePath s = as_rel s /\ src_AsExplicitRelativePath s = as_explicit_rel s
+               /\ src_NormalizeAbsoluteFilePath s = norm_file s /\ src_NormalizeAbsoluteDirPath s = norm_dir s.
+Proof.
+  split; [exact path_fns_translated|]. intros s.
+  exact (conj (src_ToNixPath_is_model s) (conj (src_AsRelativePath_is_model s) (conj (src_AsExplicitRelativePath_is_model s)
+          (conj (src_NormalizeAbsoluteFilePath_is_model s) (src_NormalizeAbsoluteDirPath_is_model s))))).
+Qed.
+Print Assumptions C05_path_helpers_source_is_the_model.
